@@ -674,7 +674,7 @@ def run(tier, replay=None):
         return "C03-nullable-repeat" in kf and nullable_repeat(toks.get("re", ""))
     wres, wfound = rc.check_wfx(core, chk, b, [c for c in cases if c.split(" ", 1)[0] not in hz], excuse, found_so_far=found) if lres.get("driver_ok") else ({}, False)
     found = found or wfound
-    ares, afound = rc.check_atoms(core, chk, cases, imap, found_so_far=found) if lres.get("driver_ok") else ({}, False)
+    ares, afound = rc.check_atoms(core, chk, cases, imap, amap, found_so_far=found) if lres.get("driver_ok") else ({}, False)
     found = found or afound
     chk.cov.update({
         "evaluations": len(cases), "distinct_nontrivial": len(distinct),
